@@ -129,6 +129,16 @@ def generate(rng, tier):
             add(u, "f%s@53" % ip, qs, rg.fault_plan(plan), "rnd-fwd-" + uf, extra=extra, fwd=ip)
         else:
             add(u, rng.choice(["r4", "rp4", "rp6", "r6"]), qs, rg.fault_plan(plan), "rnd-rec-" + uf, extra=extra)
+    # aliases in circles and over-long chains held LOCALLY (zones, cache) and upstream, entered from any side,
+    # in recursive and forwarding mode: every resolution must end (error or partial chain), never crash or hang
+    from . import netgen
+    k = 70 if tier == "quick" else 3000
+    while k > 0:
+        un = netgen.base_universe(rng, depth=rng.choice([1, 2, 3]), max_ns=rng.choice([1, 2]))
+        parts = rng.choice([netgen.sc_loops, netgen.sc_loops, netgen.sc_long, netgen.sc_cachechain, netgen.sc_cross])(rng, un)
+        mode, fwd = netgen.pick_mode(rng, forwarding=(rng.random() < 0.5))
+        builders.append(netgen.build(batch, un, parts, mode, fwd, rng, hints=True))
+        k -= 1
     outs = batch.run()
     return [b.line(outs) for b in builders]
 
